@@ -208,3 +208,50 @@ func GenBGPSessions(rt *rapid.T, withSecrets bool) []BGPSession {
 	}
 	return out
 }
+
+// GenPriorAdvs draws an earlier advertisement list for a session: a same-length variation of the
+// final one (an entry replaced by a copy of another entry, attributes changed), a shorter or a longer
+// list, or nil (no earlier Set).
+func GenPriorAdvs(rt *rapid.T, final []BGPAdv) []BGPAdv {
+	if len(final) == 0 || rapid.IntRange(0, 2).Draw(rt, "priorK") == 0 {
+		return nil
+	}
+	out := append([]BGPAdv(nil), final...)
+	lps := map[string]uint32{}
+	for _, a := range out {
+		lps[a.Prefix] = a.LocalPref
+	}
+	for n := rapid.IntRange(1, 3).Draw(rt, "priorEdits"); n > 0; n-- {
+		i := rapid.IntRange(0, len(out)-1).Draw(rt, "priorIdx")
+		switch rapid.IntRange(0, 4).Draw(rt, "priorEdit") {
+		case 0: // replace by a copy of another entry
+			out[i] = out[rapid.IntRange(0, len(out)-1).Draw(rt, "priorSrc")]
+		case 1: // other communities
+			a := out[i]
+			a.Comms = nil
+			for _, c := range bgpComms {
+				if rapid.IntRange(0, 2).Draw(rt, "priorComm") == 0 {
+					a.Comms = append(a.Comms, c)
+				}
+			}
+			out[i] = a
+		case 2: // another prefix
+			a := out[i]
+			a.Prefix = rapid.SampledFrom(bgpPrefixes).Draw(rt, "priorPrefix")
+			if lp, ok := lps[a.Prefix]; ok {
+				a.LocalPref = lp
+			} else {
+				lps[a.Prefix] = a.LocalPref
+			}
+			out[i] = a
+		case 3:
+			out = append(out[:i:i], out[i+1:]...)
+			if len(out) == 0 {
+				return []BGPAdv{}
+			}
+		case 4:
+			out = append(out, out[i])
+		}
+	}
+	return out
+}
